@@ -388,6 +388,10 @@ fn c07_range_requests() {
                 let mut got = vec![];
                 { let mut s = archive.chunk_stream(&index); while let Some(r) = s.next().await { got.push(r.map(|c| c.len()).map_err(|e| format!("{:?}", e))); } }
                 let ranges = log.lock().unwrap().clone();
+                if got.len() != wanted.len() && !got.iter().any(|g| g.is_err()) {
+                    println!("WITNESS {{\"kind\":\"C06\",\"what\":\"the number of chunks fetched from the archive is not the number of wanted chunks (each once)\",\"detail\":{:?}}}",
+                        format!("mask {:b} wanted {} fetched {}", mask, wanted.len(), got.len()));
+                }
                 if got.len() != wanted.len() || got.iter().any(|g| g.is_err()) { witness("C07", "chunk stream over HTTP did not deliver the wanted chunks", format!("mask {:b} got {:?}", mask, got)); }
                 (ranges, wanted, descs)
             });
@@ -400,6 +404,18 @@ fn c07_range_requests() {
                 prev_end = Some(e);
             }
             let got: Vec<(u64, u64)> = got_ranges.into_iter().filter(|r| r.0 >= header_len).collect();
+            {   // C06: the chunk data requested is exactly the stored ranges of the wanted chunks, no byte twice
+                let mut want_bytes: Vec<(u64, u64)> = wanted.iter().map(|&i| (descs[i].archive_offset, descs[i].archive_offset + descs[i].archive_size as u64 - 1)).collect();
+                want_bytes.sort();
+                let mut got_sorted = got.clone();
+                got_sorted.sort();
+                let total = |v: &Vec<(u64, u64)>| -> u64 { v.iter().map(|r| r.1 - r.0 + 1).sum() };
+                let covered = want_bytes.iter().all(|w| got_sorted.iter().any(|g| g.0 <= w.0 && w.1 <= g.1));
+                if !covered || total(&want_bytes) != total(&got_sorted) {
+                    println!("WITNESS {{\"kind\":\"C06\",\"what\":\"the chunk data requested is not exactly the stored ranges of the wanted chunks, each once\",\"detail\":{:?}}}",
+                        format!("layout order_kind {} gap {} wanted {:?} ranges wanted {:?} requested {:?}", order_kind, gap, wanted, want_bytes, got));
+                }
+            }
             if got != expected {
                 witness("C07", "Range requests differ from the maximal runs of adjacent wanted chunks", format!("layout order_kind {} gap {} wanted {:?} expected {:?} got {:?}", order_kind, gap, wanted, expected, got));
             }
